@@ -154,8 +154,12 @@ impl ServerSession {
         self.bytes_received += bytes.len() as u64;
 
         if let Some(peer_ack_size) = self.peer_window_ack_size {
-            self.bytes_received_since_last_ack += bytes.len() as u32;
-            if self.bytes_received_since_last_ack >= peer_ack_size {
+            // Count in 64 bits: with a window close to u32::MAX the 32 bit counter would
+            // overflow before the window is reached.  The value never exceeds the window
+            // between calls, so it still fits the u32 field afterwards.
+            let received = self.bytes_received_since_last_ack as u64 + bytes.len() as u64;
+            self.bytes_received_since_last_ack = received as u32;
+            if received >= peer_ack_size as u64 {
                 let ack_message = RtmpMessage::Acknowledgement {
                     sequence_number: self.bytes_received_since_last_ack,
                 };
